@@ -214,15 +214,26 @@ func runC20(w *World) {
 				case 0, 1, 2: // valid add
 					nextCfg++
 					cfgID := nextCfg
-					a := &added{key: key, cfg: cfgID, passive: w.Chance(1, 3, "passive"), port: Pick(w, "port", 179, 1179, 1, 65535)}
+					a := &added{key: key, cfg: cfgID, passive: w.Chance(1, 3, "passive"), port: Pick(w, "port", 179, 1179, 1, 65535, -1)}
+					defaultPort := a.port == -1
+					if defaultPort {
+						a.port = corebgp.DefaultPort // no WithPort option: the documented default applies
+					}
 					cfg := corebgp.PeerConfig{RemoteAddress: ip, LocalAS: 65001, RemoteAS: uint32(cfgID)}
 					var opts []corebgp.PeerOption
 					if w.Chance(1, 4, "overridden-invalid") {
 						// an invalid value that a later option overrides: the last one wins
-						opts = append(opts, Pick(w, "ovr", corebgp.WithHoldTime(1), corebgp.WithHoldTime(2), corebgp.WithPort(0), corebgp.WithPort(70000)))
+						ov := Pick(w, "ovr", corebgp.WithHoldTime(1), corebgp.WithHoldTime(2), corebgp.WithPort(0), corebgp.WithPort(70000))
+						if defaultPort {
+							ov = corebgp.WithHoldTime(2) // (no later WithPort would override a bad port)
+						}
+						opts = append(opts, ov)
 						w.Probe("valid-add-with-overridden-invalid-option")
 					}
-					opts = append(opts, corebgp.WithPort(a.port), corebgp.WithHoldTime(Pick(w, "hold", uint16(90), 0, 3)), corebgp.WithIdleHoldTime(30*time.Second), ctl(a))
+					if !defaultPort {
+						opts = append(opts, corebgp.WithPort(a.port))
+					}
+					opts = append(opts, corebgp.WithHoldTime(Pick(w, "hold", uint16(90), 0, 3)), corebgp.WithIdleHoldTime(30*time.Second), ctl(a))
 					if a.passive {
 						opts = append(opts, corebgp.WithPassive())
 					}
